@@ -560,6 +560,9 @@ class PacketSock(SimSocketBase):
             return
         self.rxq.append((data, src))
         self.net.world.log('eth-arrive', self.ifname, len(data))
+        log = getattr(self.net, 'frame_log', None)
+        if log is not None:
+            log.append((self.net.world.now, self.node.name if self.node else None, bytes(data)))
 
     def recvfrom(self, bufsize, _flags=0):
         if not self.rxq:
